@@ -70,6 +70,13 @@ func c01Schedules(w *W) {
 			w.Count("inputs_capped", 1)
 			w.res.Incomplete = true
 		}
+		if sum.deadlock == nil && sum.blocked == nil {
+			// and one free run per hooked point with the goroutine that reaches it held back (e2.go, delayRuns): the real
+			// channel operations decide; a call that never returns ends the worker with the runtime's deadlock report,
+			// attributed to this source
+			w.Announce("delay runs of " + src)
+			w.Count("delay_runs", int64(delayRuns(c06ParseBody(src, nil), func(int, string) {})+1))
+		}
 		c := c01Case{Src: src, Kind: "schedule"}
 		switch {
 		case sum.deadlock != nil:
